@@ -18,7 +18,7 @@ RULE = ('modules of 2-4 functions over the fragment (raise of builtin / custom e
         'random, time, os.system, calls of functions defined earlier; nested under if / for / while / with / try-except-else-finally), each with a random raises / safe / pure / has '
         'declaration set, callees with declarations and docstrings; enlarged-declaration variants (monotonicity); caller / stubbed-callee pairs; non-trivial = the function has a declaration')
 
-EXCS = ['ValueError', 'KeyError', 'LookupError', 'ZeroDivisionError', 'ArithmeticError', 'OSError', 'RuntimeError', 'TypeError', 'MyError']
+EXCS = ['ValueError', 'KeyError', 'LookupError', 'ZeroDivisionError', 'ArithmeticError', 'OSError', 'RuntimeError', 'TypeError', 'SystemExit', 'BaseException', 'MyError']
 MARKERS = ['stdout', 'stderr', 'io', 'global', 'import', 'read', 'write', 'random', 'time', 'syscall', 'network']
 LEAVES = ['raise', 'raise_call', 'assert', 'exit', 'pass', 'return', 'print', 'stdout', 'stderr', 'global', 'import', 'open_r', 'open_w', 'random', 'time', 'syscall']
 OWN_MARKER = {'print': 'stdout', 'stdout': 'stdout', 'stderr': 'stderr', 'global': 'global', 'import': 'import', 'open_r': 'read', 'open_w': 'write',
@@ -385,12 +385,11 @@ def run(ctx, fr, model_available=True, mods=None):
 
 
 def search(ctx, fr, model_available=True):
-    for k in range(1, 4):
-        class C2: tier = 'thorough'; seed = ctx.seed + 100 * k
-        fr2 = type(fr)()
-        run(C2, fr2, model_available=False)
-        fr.violations += fr2.violations; fr.evaluations += fr2.evaluations
-        if [v for v in fr2.violations if not v.get('signature')]: return
+    # one pass of 500 further modules (a module takes ~0.4 s to lint through every entry point)
+    rnd = random.Random(ctx.seed * 17 + 1018)
+    fr2 = type(fr)()
+    run(ctx, fr2, model_available=False, mods=[gen_module(rnd) for _ in range(500)])
+    fr.violations += fr2.violations; fr.evaluations += fr2.evaluations
 
 
 def classify(v, findings):
